@@ -55,7 +55,7 @@ structure SlowDomain (c : Cfg) (F : FTy) (p : Nat) (n : Number) (fp : ExtendedFl
       c.mantissaRadix ^ (digitExponent (sciOf c n) (mantissaOf c.mantissaRadix d (sigBytes n.integer n.fraction)).2).toNat <
       2 ^ (64 * (envOf c.feats).L.bigintLimbs)
   negSide : digitExponent (sciOf c n) (mantissaOf c.mantissaRadix d (sigBytes n.integer n.fraction)).2 < 0 →
-    2 ^ 63 ≤ fp.mant ∧ fp.mant < 2 ^ 64 ∧ -fp.exp + 1 ≤ 64 ∧ fp.exp < 2 ^ 20 ∧
+    2 ^ 63 ≤ fp.mant ∧ fp.mant < 2 ^ 64 ∧ fp.exp < 2 ^ 20 ∧
     C01Slow.roundedDown F fp < F.fmt.infBits ∧
     NegGuard (envOf c.feats) F p c.mantissaRadix (mantissaOf c.mantissaRadix d (sigBytes n.integer n.fraction)).1 fp
       (digitExponent (sciOf c n) (mantissaOf c.mantissaRadix d (sigBytes n.integer n.fraction)).2)
@@ -102,8 +102,8 @@ theorem slowModel_hslow {c : Cfg} {F : FTy} (hF : IsLemireFloat F) {p eb : Nat} 
     ⟨n.mantissa, n.exponent, n.integer, n.fraction⟩ { fp with exp := fp.exp - invalidFp }
     D.validInt D.validFrac D.nonempty D.bytes D.sciLo D.sciHi D.posGuard (by
       intro hneg
-      obtain ⟨a1, a2, a3, a4, a5, a6⟩ := D.negSide hneg
-      refine ⟨a1, a2, a3, a4, a5, ?_, a6⟩
+      obtain ⟨a1, a2, a4, a5, a6⟩ := D.negSide hneg
+      refine ⟨a1, a2, a4, a5, ?_, a6⟩
       -- the pipeline's bracket is the weak bracket of the value the slow path rounds
       unfold WeakBracket
       have hpf : ∀ (e : Int) (M : Nat), e < 0 →
